@@ -178,5 +178,12 @@ func Verif_C10_snapshotWhileCommitting() {
 	verifAssert(!tsm.IsPruningBlocked(), "pruning is unblocked once the snapshot is done")
 	verifC10CheckSnapshot(tsm, wanted, "snapshot")
 	c.checkLive("after the snapshot")
+	// afterwards a checkpoint of the current tip: the snapshot database (snapshot + what was committed since) holds it
+	tip := c.tip()
+	c.adb.SetStateCheckpoint(tip.root)
+	for i := 0; i < 200 && (i == 0 || tsm.IsPruningBlocked()); i++ {
+		time.Sleep(5 * time.Millisecond)
+	}
+	verifC10CheckSnapshot(tsm, tip, "later checkpoint of the tip")
 	verifReach("end")
 }
